@@ -143,3 +143,26 @@ Example C03_test_half_example :
   /\ option_map s_sids (match lifecycle (carry_mappings false) w_parent w_sel true [SaveLoad; SaveLoad] with
                         | Ok s => Some s | Err _ => None end) = Some [0; 0].
 Proof. vm_compute. split; reflexivity. Qed.
+
+(* ---- the command-line wrappers prepare_retrospective_simulation.main and reveal_plate.main is what the source says NOW ----
+   `src_cli_prepare` / `src_cli_reveal_plate` are the whole functions main of /repo's current
+   batchie/cli/prepare_retrospective_simulation.py / reveal_plate.py, re-translated on every run (configurations CLI_PREPARE /
+   CLI_REVEAL_PLATE -> Generated/SrcCli.v).  Cli.cli_prepare fixes the ORDER: filter, generator from --seed, initial plate or mask, plate
+   generator, random reveal when there is no initial generator, smoother, the hold-out split LAST (on the smoothed screen), both saves;
+   every drawing step receives the generator state its predecessor left.
+   Model/Cli.v: the parsed arguments are a record of the plain argparse results (get_args() is not translated), `L` is a
+   record of the library functions the wrapper calls over abstract types (each component stands for the library function
+   of that name with its parameter list; `*_load_*` = what loading the file at a path yields), a main() denotes the list
+   of (path, content) files it writes, Err = the exception that ends it.  The links hold for EVERY such record. *)
+From Batchie Require Lib.PyRt Model.Cli Generated.SrcCli Proofs.C03SourceCli Proofs.C12SourceCli.
+Theorem C03_model_is_source_cli_prepare_retrospective_simulation : forall (Scr Pl Ig Pg Ps : Type) (L : Cli.pr_lib Scr Pl Ig Pg Ps) (mix : Z -> Z) (a : Cli.pr_args),
+  SrcCli.src_cli_prepare Scr Pl Ig Pg Ps L mix a
+  = Cli.cli_prepare L mix a.
+Proof. exact C03SourceCli.src_cli_prepare_is_model. Qed.
+Print Assumptions C03_model_is_source_cli_prepare_retrospective_simulation.
+
+Theorem C03_model_is_source_cli_reveal_plate : forall (Scr : Type) (L : Cli.rp_lib Scr) (a : Cli.rp_args),
+  SrcCli.src_cli_reveal_plate Scr L a
+  = Cli.cli_reveal_plate L a.
+Proof. exact C12SourceCli.src_cli_reveal_plate_is_model. Qed.
+Print Assumptions C03_model_is_source_cli_reveal_plate.
